@@ -4,7 +4,7 @@
    The hash functions are parameters of the statements (any functions): the theorems are about which hashes are compared with which
    committed bytes, and the correspondence runs them with the Gallina SHA-256 / RIPEMD-160 of BV.Hashes. *)
 From BV Require Import Base Script Interp Session Tx TxCli Sighash Configure ConfigureProofs.
-From BV.Gen Require Import Consts.
+From BV.Gen Require Import Consts Sites.
 Local Open Scope Z_scope.
 
 (* --- input selection *)
@@ -94,7 +94,23 @@ Theorem C03_v1_setup : forall sha256 program w amount s, configure_v1 sha256 pro
                 ed_weight_init (ss_ed s) = true /\ ed_weight_left (ss_ed s) = witness_size w + VALIDATION_WEIGHT_OFFSET)).
 Proof. exact configure_v1_spec. Qed.
 
+(* the comparisons GENERATED from configure_tx_txin: control blocks of 33 + 32k bytes are legal for every k = 0..128, the bounds included *)
+Theorem C03_control_block_size_bounds : forall n,
+  (cmp_eval site_control_min n TAPROOT_CONTROL_BASE_SIZE || cmp_eval site_control_max n TAPROOT_CONTROL_MAX_SIZE) = negb ((33 <=? n) && (n <=? 33 + 32 * 128)).
+Proof.
+  intros n. change TAPROOT_CONTROL_BASE_SIZE with 33. change TAPROOT_CONTROL_MAX_SIZE with 4129. change (33 + 32 * 128) with 4129.
+  unfold site_control_min, site_control_max, cmp_eval.
+  destruct (n <? 33) eqn:E1; destruct (4129 <? n) eqn:E2; destruct (33 <=? n) eqn:E3; destruct (n <=? 4129) eqn:E4; try reflexivity; exfalso;
+    repeat match goal with
+           | H : (_ <? _) = true |- _ => apply Z.ltb_lt in H
+           | H : (_ <? _) = false |- _ => apply Z.ltb_ge in H
+           | H : (_ <=? _) = true |- _ => apply Z.leb_le in H
+           | H : (_ <=? _) = false |- _ => apply Z.leb_gt in H
+           end; lia.
+Qed.
+
 Print Assumptions C03_selection_sound.
+Print Assumptions C03_control_block_size_bounds.
 Print Assumptions C03_wrong_selection_refused.
 Print Assumptions C03_selection_out_of_range_refused.
 Print Assumptions C03_auto_selection_is_first.
